@@ -20,7 +20,7 @@ func init() {
 		ID:    "C02",
 		Level: "exploration",
 		Rule: "validly IdP-signed responses whose five instants (Response/Assertion IssueInstant, Conditions NotBefore/NotOnOrAfter, confirmation NotOnOrAfter) each take one of {bound-1ms violating, bound+1ms satisfying, far inside, far outside} relative to a virtual now: the full 4^5 lattice for the single-assertion shape " +
-			"under every tolerance pair, and seeded samples for the multi-confirmation / multi-assertion shapes, both signing layouts, lexical time forms (Z, +05:30, -08:00, no zone, 0..9 fraction digits with sub-ms parts that round to the target) and the artifact entry point (ArtifactResponse IssueInstant). " +
+			"under every tolerance pair, and seeded samples for the multi-confirmation / multi-assertion shapes, both signing layouts, lexical time forms (Z, +05:30, -08:00, no zone, 0..9 fraction digits with sub-ms parts that round to the target) and the artifact entry point (ArtifactResponse IssueInstant; envelope signed or not), unsigned Responses with and without Destination. " +
 			"Oracle: accept iff every bound holds (by >=1ms), reject iff one is violated (by >=1ms); mixed multi-assertion responses only require that the returned assertion satisfies all bounds. Non-trivial = response reached the time checks (accepted, or rejected with a time-related PrivateErr) ; distinct by lattice point x shape x tolerance x layout x lexical form.",
 		Assumptions: []string{"goxmldsig validates the oracle's own signatures correctly", "exact-boundary instants are not judged (only +-1ms)", "instants are compared after rounding to the millisecond, as RelaxedTime documents"},
 		FloorQuick:  2500,
